@@ -874,7 +874,19 @@ fn judge_child(plan: &Plan, spec: &SpawnSpec, si: usize, pid: i32, mo: &ModelOut
             m
         }
     };
-    if got_env != want_env || (spec.env.is_some() && rec.env.len() != want_env.len()) {
+    if spec.env.is_none() && plan.parent.env_odd {
+        // the block is handed on as it is: same entries, and entries of one name in the same order
+        let key = |e: &Vec<u8>| e[..e.iter().position(|&b| b == b'=').unwrap_or(e.len())].to_vec();
+        let mut want_raw = crate::runner::raw_environ();
+        let mut got_raw = rec.env.clone();
+        want_raw.sort_by_key(key);
+        got_raw.sort_by_key(key);
+        if want_raw != got_raw {
+            let lost: Vec<String> = want_raw.iter().filter(|e| !got_raw.contains(e)).map(|e| String::from_utf8_lossy(e).into_owned()).collect();
+            let added: Vec<String> = got_raw.iter().filter(|e| !want_raw.contains(e)).map(|e| String::from_utf8_lossy(e).into_owned()).collect();
+            violate("env", format!("env/explicit=false/inherited_block_changed/lost={}/added={}", lost.len().min(2), added.len().min(2)), format!("{}: no environment was specified, but the child's environment block is not the parent's: {} entries instead of {}, lost {:?}, added {:?}", ctx, got_raw.len(), want_raw.len(), lost, added));
+        }
+    } else if got_env != want_env || (spec.env.is_some() && rec.env.len() != want_env.len()) {
         let missing = want_env.keys().filter(|k| !got_env.contains_key(*k)).count();
         let extra = got_env.keys().filter(|k| !want_env.contains_key(*k)).count();
         let differ = want_env.iter().filter(|(k, v)| got_env.get(*k).map(|g| g != *v).unwrap_or(false)).count();
@@ -1308,6 +1320,10 @@ pub fn generate(prop: &str, rng: &mut Rng, plan: &mut Plan, index: u64) {
                 gen_streams(rng, &mut spec, false);
                 sp.spawns.push(spec);
             }
+            // "the parent's when unspecified" means the block as it is, whatever is in it
+            if rng.chance(1, 5) {
+                plan.parent.env_odd = true;
+            }
         }
         "C07" => {
             // configuration from index/64, injection point from index%64
@@ -1595,8 +1611,21 @@ pub fn generate(prop: &str, rng: &mut Rng, plan: &mut Plan, index: u64) {
                 let at = rng.below(nent as u64) as usize;
                 plan.fs.push(FsEntry { path: format!("{}/{}", entries[at], cmd), node: Node::Exe { prog: 0 }, raw: None });
             }
-            if nent > 0 && rng.chance(2, 3) {
-                plan.parent.env[0].1 = entries.join(":");
+            if rng.chance(1, 12) {
+                // a PATH made of nothing but separators: no candidate at all
+                plan.parent.env[0].1 = ":".repeat(1 + rng.below(3) as usize);
+                plan.fs.push(FsEntry { path: format!("/work/{}", cmd), node: Node::Exe { prog: 0 }, raw: None });
+                spec.argv[0] = cmd.into_bytes();
+            } else if nent > 0 && rng.chance(2, 3) {
+                let mut parts = entries.clone();
+                if rng.chance(1, 4) {
+                    // empty entries: in front, in between, at the end
+                    for _ in 0..1 + rng.below(3) {
+                        let at = rng.below(parts.len() as u64 + 1) as usize;
+                        parts.insert(at, String::new());
+                    }
+                }
+                plan.parent.env[0].1 = parts.join(":");
                 if rng.chance(1, 5) {
                     // a PATH entry that is not valid UTF-8 (searched before the others)
                     let mut dir = b"/q/odd".to_vec();
@@ -1730,6 +1759,10 @@ pub fn generate(prop: &str, rng: &mut Rng, plan: &mut Plan, index: u64) {
             plan.parent.closed_std = 1 + rng.below(7) as u8;
             plan.parent.files_low = rng.chance(1, 2);
         }
+    }
+    // an event-loop parent: its own standard streams are in non-blocking mode, and stay so
+    if prop == "C05" && plan.parent.closed_std == 0 && rng.chance(1, 5) {
+        plan.parent.nonblock_std = 1 + rng.below(7) as u8;
     }
     plan.body = Body::Spawn(sp);
 }
